@@ -447,3 +447,60 @@ def _raise_arity(program):
 
 def raise_arity(program):
     return _raise_arity(program)
+
+
+# ----------------------------------------------------------------------
+# containment inside a scope: does an exception raised at a site get caught
+# before it leaves `root_qual`?
+
+def raised_class(program, f, rnode, current):
+    e = rnode.ast.exc
+    if e is None:
+        return current
+    if isinstance(e, ast.Call):
+        e = e.func
+    r = program.resolve_expr_static(f.module, e) if isinstance(e, (ast.Name, ast.Attribute)) else None
+    if r and r[0] == "class":
+        return r[1].qual
+    d = dotted(e)
+    if d:
+        return d.split(".")[-1]
+    return "BaseException"
+
+
+def route_in_scope(program, scope, root_qual, f, node, exc, skip_site=None, seen=None, chain=None):
+    """[('caught', func, handler node, chain) | ('escape', func, None, chain)]"""
+    cg = get_callgraph(program)
+    seen = seen if seen is not None else set()
+    chain = (chain or []) + ["%s:%s" % (f.qual, getattr(node.ast, "lineno", "?"))]
+    g = cfg_of(f)
+    for handlers in enclosing_handlers(g, node):
+        for h in handlers:
+            if handler_catches(program, f, h.ast, exc):
+                beh = handler_behaviour(g, h)
+                if beh == "swallow":
+                    return [("caught", f, h, chain)]
+                out = []
+                for rn in g.nodes:
+                    if rn.kind == "stmt" and isinstance(rn.ast, ast.Raise) and any(x is rn.ast for x in ast.walk(h.ast)):
+                        out += route_in_scope(program, scope, root_qual, f, rn, raised_class(program, f, rn, exc), skip_site, seen, chain)
+                if beh == "reraise-sometimes":
+                    out.append(("caught", f, h, chain))
+                return out
+    if f.qual == root_qual:
+        return [("escape", f, None, chain)]
+    key = (f.qual, exc)
+    if key in seen:
+        return []
+    seen.add(key)
+    out = []
+    for s in cg.callers.get(f.qual, []):
+        if s.func.qual not in scope:
+            continue
+        if skip_site is not None and skip_site(s):
+            continue
+        cn = _node_of_call(cfg_of(s.func), s.node)
+        if cn is None:
+            continue
+        out += route_in_scope(program, scope, root_qual, s.func, cn, exc, skip_site, seen, chain)
+    return out
